@@ -9,7 +9,7 @@ def run(ctx):
     t = 1 if ctx.thorough else 0
     depth = 4 if t else 3
     jobs = []
-    for be in (["asm", "c32", "generic"] if t else ["asm"]):
+    for be in (["asm", "c64", "c32", "dxor", "generic"] if t else ["asm", "c32", "generic"]):
         lib = build.build_lib(be)
         ctx.configs.append(lib["desc"])
         exe = build.build_prog("c15", ["harness/c15.c", "harness/sysrand.c", "ref/ref.c"], lib, opt="-O2")
